@@ -22,6 +22,7 @@ package net
 //@ func handleConn
 //@   props C16 C10
 //@   requires conn != nil && l != nil && stopFlag != nil && typeIs(conn, "*tls.Conn") && dyn(conn, "*tls.Conn") != nil
+//@   requires [table] shouldHaveTopic != nil && forall t MsgType :: { dom(shouldHaveTopic, t) } (t in shouldHaveTopic && shouldHaveTopic[t]) == (t == MsgTypeMPC || t == MsgTypeDiscovery)
 //@   on-send inMsgs(v):
 //@     assert [attributed-after-auth] authenticationSucceeded && v.From == from && v.Domain == domain
 
